@@ -147,8 +147,8 @@ def exCfg (hrs : Bool) (self : Nat) : Cfg where
   emptyInterval := false
   checkHRS := hrs
 
-def exPv (r : Nat) (b : Bid) (v : Nat) : Input := .vote ⟨.prevote, r, b, v, true⟩ 1
-def exPc (r : Nat) (b : Bid) (v : Nat) : Input := .vote ⟨.precommit, r, b, v, true⟩ 1
+def exPv (r : Nat) (b : Bid) (v : Nat) : Input := .vote ⟨.prevote, r, b, v, true, v, v⟩ 1
+def exPc (r : Nat) (b : Bid) (v : Nat) : Input := .vote ⟨.precommit, r, b, v, true, v, v⟩ 1
 
 /-- propose and prevote block 0, see the polka, precommit and lock; nil precommits of the others and
 the precommit timeout lead to round 1, where the propose timeout makes the node prevote again -/
